@@ -30,12 +30,40 @@ pub trait Process: Send + 'static {
     }
 }
 
+/// The processes to tell about an exit. A terminating process collects the set once (`close`);
+/// from then on the set is the record of who is told: nothing is removed any more, and an entry
+/// that arrives late is refused, so that the caller can answer it instead.
+struct ExitSet<T> {
+    entries: HashSet<T>,
+    closed: bool,
+}
+
+impl<T: Clone + Eq + std::hash::Hash> ExitSet<T> {
+    fn new() -> Self {
+        Self {
+            entries: HashSet::new(),
+            closed: false,
+        }
+    }
+
+    /// `false`: the owner has already collected the set and this entry was not part of it.
+    fn add(&mut self, entry: T) -> bool {
+        let new = self.entries.insert(entry);
+        !(self.closed && new)
+    }
+
+    fn close(&mut self) -> Vec<T> {
+        self.closed = true;
+        self.entries.iter().cloned().collect()
+    }
+}
+
 #[derive(Clone)]
 pub struct ProcessHandle {
     pub pid: ExternalPid,
     pub mailbox_sender: mpsc::Sender<Message>,
-    links: Arc<RwLock<HashSet<ExternalPid>>>,
-    monitors: Arc<RwLock<HashSet<(ExternalPid, ExternalReference)>>>,
+    links: Arc<RwLock<ExitSet<ExternalPid>>>,
+    monitors: Arc<RwLock<ExitSet<(ExternalPid, ExternalReference)>>>,
 }
 
 impl ProcessHandle {
@@ -43,8 +71,8 @@ impl ProcessHandle {
         Self {
             pid,
             mailbox_sender,
-            links: Arc::new(RwLock::new(HashSet::new())),
-            monitors: Arc::new(RwLock::new(HashSet::new())),
+            links: Arc::new(RwLock::new(ExitSet::new())),
+            monitors: Arc::new(RwLock::new(ExitSet::new())),
         }
     }
 
@@ -55,31 +83,52 @@ impl ProcessHandle {
             .map_err(|_| crate::errors::Error::MailboxClosed)
     }
 
-    pub async fn add_link(&self, other_pid: ExternalPid) {
-        self.links.write().await.insert(other_pid);
+    /// Returns `false` when this process is terminating and has already collected its links
+    /// without `other_pid`: it will not send that process an exit signal, the caller has to.
+    pub async fn add_link(&self, other_pid: ExternalPid) -> bool {
+        self.links.write().await.add(other_pid)
     }
 
     pub async fn remove_link(&self, other_pid: &ExternalPid) {
-        self.links.write().await.remove(other_pid);
+        let mut links = self.links.write().await;
+        if !links.closed {
+            links.entries.remove(other_pid);
+        }
     }
 
-    pub async fn add_monitor(&self, monitoring_pid: ExternalPid, reference: ExternalReference) {
-        self.monitors
-            .write()
-            .await
-            .insert((monitoring_pid, reference));
+    /// Returns `false` when this process is terminating and has already collected its monitors:
+    /// it will not send a `MonitorExit` for `reference`, the caller has to.
+    pub async fn add_monitor(
+        &self,
+        monitoring_pid: ExternalPid,
+        reference: ExternalReference,
+    ) -> bool {
+        self.monitors.write().await.add((monitoring_pid, reference))
     }
 
     pub async fn remove_monitor(&self, reference: &ExternalReference) {
-        self.monitors.write().await.retain(|(_, r)| r != reference);
+        let mut monitors = self.monitors.write().await;
+        if !monitors.closed {
+            monitors.entries.retain(|(_, r)| r != reference);
+        }
     }
 
     pub async fn get_links(&self) -> Vec<ExternalPid> {
-        self.links.read().await.iter().cloned().collect()
+        self.links.read().await.entries.iter().cloned().collect()
     }
 
     pub async fn get_monitors(&self) -> Vec<(ExternalPid, ExternalReference)> {
-        self.monitors.read().await.iter().cloned().collect()
+        self.monitors.read().await.entries.iter().cloned().collect()
+    }
+
+    /// The links to signal on exit; later additions are refused (see `add_link`).
+    async fn close_links(&self) -> Vec<ExternalPid> {
+        self.links.write().await.close()
+    }
+
+    /// The monitors to signal on exit; later additions are refused (see `add_monitor`).
+    async fn close_monitors(&self) -> Vec<(ExternalPid, ExternalReference)> {
+        self.monitors.write().await.close()
     }
 }
 
@@ -129,7 +178,7 @@ async fn propagate_exit_signals(
     registry: &ProcessRegistry,
     reason: OwnedTerm,
 ) -> Result<()> {
-    let links = handle.get_links().await;
+    let links = handle.close_links().await;
     for linked_pid in links {
         if let Some(linked_handle) = registry.get(&linked_pid).await {
             let _ = linked_handle
@@ -143,7 +192,7 @@ async fn propagate_exit_signals(
 
     #[cfg(edp_rs_verif)]
     edp_client::verif_hooks::yield_point("proc:between_links_and_monitors").await;
-    let monitors = handle.get_monitors().await;
+    let monitors = handle.close_monitors().await;
     for (monitoring_pid, reference) in monitors {
         if let Some(monitoring_handle) = registry.get(&monitoring_pid).await {
             let _ = monitoring_handle
